@@ -127,16 +127,26 @@ def params(tier):
     ps.append({"sources": two[:1], "cancel": {"by": "id", "how": "same", "target": 0, "at": 0.5}, "bound": 2, "time_horizon": 1.5})
     ps.append({"sources": two[:1], "cancel": {"by": "name", "how": "number", "name": "A", "at": 0.5}, "bound": 2, "time_horizon": 1.5})
     ps.append({"sources": two, "cancel": {"by": "id", "how": "same", "target": 1}, "bound": 2, "time_horizon": 1.0})
+    # two threads start a timed source at the same moment when one place is left in the tracked list (capacity 2): whichever
+    # of them is accepted, the source tracked before must stay cancellable
+    for by in ("id", "name"):
+        ps.append({"sources": two, "sub_qsize": 2, "racer": {"before": 1, "op": "post_timed"}, "racer_codes": True,
+                   "cancel": dict({"by": "id", "how": "same", "target": 0} if by == "id" else {"by": "name", "how": "literal", "name": "A"}, at=0.25),
+                   "bound": 1 if q else 2, "time_horizon": 1.0})
     if not q:       # heavy: explored under a wall-clock budget, reported separately (coverage.heavy_extra)
         ps.append({"sources": two, "cancel": {"by": "name", "how": "literal", "name": "A", "at": 1.0}, "bound": 2, "time_horizon": 2.0, "heavy": True})
         ps.append({"sources": SRC3, "cancel": {"by": "id", "how": "same", "target": 0, "at": 0.5}, "bound": 2, "time_horizon": 1.0, "heavy": True})
     return ps
 
 
+RACER_CODES = timed.CODES + ["ActiveObject.__", "ActiveObject.cancel"]
+
+
 def run(tier):
     res = Result(PID)
     allp = params(tier)
-    st = explore.explore(C11("line"), [p for p in allp if not p.get("heavy")], 2)
+    st = explore.explore(C11("line"), [p for p in allp if not p.get("heavy") and not p.get("racer_codes")], 2)
+    st.merge(explore.explore(C11("line", codes=RACER_CODES), [p for p in allp if p.get("racer_codes")], 2))
     hx = None
     if any(p.get("heavy") for p in allp):
         hx = explore.extra(st, C11("line"), [p for p in allp if p.get("heavy")], 2, 1500,
@@ -159,7 +169,7 @@ def run(tier):
 
 def replay(w):
     res = Result(PID)
-    ex, v = explore.replay(C11("line"), w)
+    ex, v = explore.replay(C11("line", codes=RACER_CODES if (w.get("params") or {}).get("racer_codes") else None), w)
     print(ex.verdict, ex.obs)
     for key, what in v:
         res.add(Violation(key, what, w))
